@@ -579,11 +579,11 @@ pure adminOK(n NameState) Bool = (len(n.Owner) == 0 && W(cmtaddr())) || (len(n.O
 
 func checkCommittee()
   pure
-  ensures [C11] W(cmtaddr())
+  ensures [C03,C11] W(cmtaddr())
 
 func (n NameState) checkAdmin()
   pure
-  ensures [C11] adminOK(n)
+  ensures [C03,C11] adminOK(n)
 
 func (n NameState) ensureNotExpired()
   pure
@@ -672,7 +672,7 @@ func getParentConflictingRecord(ctx, name, fragments) (r)
 
 func checkRecord(ctx, name, typ, data) (r)
   pure
-  ensures [C11] r == tokenOf(store, name) && store.has(nkey(r)) && adminOK(rec(store, r))
+  ensures [C03,C11] r == tokenOf(store, name) && store.has(nkey(r)) && adminOK(rec(store, r))
 
 func updateSoaSerial(ctx, tokenId)
   view records
@@ -688,32 +688,32 @@ func updateBalance(ctx, tokenId, acc, diff)
 
 // records can be added, replaced or deleted only with the witness of the owner/admin of the name that holds them
 func AddRecord(name, typ, data)
-  ensures [C11] adminOK(rec(old(store), tokenOf(old(store), name)))
+  ensures [C03,C11] adminOK(rec(old(store), tokenOf(old(store), name)))
   loop 0
     invariant store == old(store)
 
 func SetRecord(name, typ, id, data)
-  ensures [C11] adminOK(rec(old(store), tokenOf(old(store), name)))
+  ensures [C03,C11] adminOK(rec(old(store), tokenOf(old(store), name)))
 
 func DeleteRecords(name, typ)
-  ensures [C11] adminOK(rec(old(store), tokenOf(old(store), name)))
+  ensures [C03,C11] adminOK(rec(old(store), tokenOf(old(store), name)))
   loop 0
     invariant true
 
 func UpdateSOA(name, email, refresh, retry, expire, ttl)
-  ensures [C11] old(store).has(nkey(name)) && adminOK(rec(old(store), name))
+  ensures [C03,C11] old(store).has(nkey(name)) && adminOK(rec(old(store), name))
 
 func Renew(name, years) (r)
-  ensures [C11] old(store).has(nkey(name)) && adminOK(rec(old(store), name))
+  ensures [C03,C11] old(store).has(nkey(name)) && adminOK(rec(old(store), name))
 
 // only the owner can appoint an admin, and only together with the new admin
 func SetAdmin(name, admin)
-  ensures [C11] old(store).has(nkey(name)) && W(rec(old(store), name).Owner) && (isnil(admin) || W(admin))
+  ensures [C03,C11] old(store).has(nkey(name)) && W(rec(old(store), name).Owner) && (isnil(admin) || W(admin))
 
 // only the owner can transfer; a refused transfer changes nothing
 func Transfer(to, tokenID, data) (ok)
-  ensures [C11] ok ==> old(store).has(nkey(tokenID)) && W(rec(old(store), tokenID).Owner)
-  ensures [C11] !ok ==> store == old(store) && notifs == old(notifs)
+  ensures [C03,C11] ok ==> old(store).has(nkey(tokenID)) && W(rec(old(store), tokenID).Owner)
+  ensures [C03,C11] !ok ==> store == old(store) && notifs == old(notifs)
 
 // sub-names (three labels and more) can be registered only by the owner/admin of the directly enclosing name,
 // every name only on behalf of an owner who witnesses the transaction
@@ -732,18 +732,18 @@ func postTransfer(from, to, tokenID, data)
   ensures true
 
 func Register(name, owner, email, refresh, retry, expire, ttl) (ok)
-  ensures [C11] W(owner) && len(owner) == 20
-  ensures [C11] len(split(name, ".")) >= 2
-  ensures [C11] len(split(name, ".")) > 2 ==> adminOK(rec(old(store), parentName(name)))
+  ensures [C03,C11] W(owner) && len(owner) == 20
+  ensures [C03,C11] len(split(name, ".")) >= 2
+  ensures [C03,C11] len(split(name, ".")) > 2 ==> adminOK(rec(old(store), parentName(name)))
 
 func RegisterTLD(name, email, refresh, retry, expire, ttl)
-  ensures [C11] W(cmtaddr())
+  ensures [C03,C11] W(cmtaddr())
 
 func SetPrice(price)
-  ensures [C11] W(cmtaddr())
+  ensures [C03,C11] W(cmtaddr())
 
 func Update(nef, manifest, data)
-  ensures [C11] W(cmtaddr())
+  ensures [C03,C11] W(cmtaddr())
 @*/
 
 /*@
